@@ -50,6 +50,10 @@ checks = {
  "C06": dict(cat="exploration", tech="invariant-at-a-hook monitor: the PostSolve hook hands every solution object (Solve and inside Prove) to an independent big.Int evaluator of the exported rows/gates; failure side decided by the reference interpreter; Yield-hook delays at level/task boundaries, task counts 1..512, -race in thorough",
    text="Every solution seen is re-validated (rows/gates satisfied, witness preserved, A,B,C = row evaluations, L,R,O = public rows / gate wires / wire-0 padding); the same monitor also runs inside the C04, C05 and C03 workloads (>60k solutions per quick run there). Own workload: lookup/range-check/hint/commitment systems and random programs over 4 fields, original and restored from bytes; the evidence counts the tasks executed by pool workers (parallel branch really taken).",
    note="trusted: ceval (uses the systems' exported ToBigInt for coefficients); commitments replaced by a hash for plain Solve calls", ref="§3 C06"),
+
+ "C03": dict(cat="exploration", tech="reference-model monitor around the real Setup/Prove/Verify in child processes (crash / hang observed): satisfying assignments from the reference interpreter must prove and verify under consistently set option sets; violating ones must make Prove return an error; C06 solution re-validation on",
+   text="3 (quick) / 7 (thorough) curves x {Groth16, PLONK}: random API programs (incl. no-secret, no-public, all-constant shapes), arithmetic circuits with 0..5 commitments (public-only, secret-only, mixed, over earlier commitments), lookup/range-check/hint scenarios (thorough), option sets {default, SHA-256, Keccak, SHA3, MiMC challenges, statistical ZK, solver task counts}. Observed executions only.",
+   note="MiMC is used for challenge/folding hashes only (it cannot hash arbitrary bytes to the field); PLONK Setup's documented refusal of systems below 2 rows is not a violation; unsafekzg SRS", ref="§3 C03"),
 }
 pending = {}
 for i in range(1,21):
